@@ -39,7 +39,7 @@ def run(replay=None):
     chk.cov['rule'] = (
         'stacks of depth 1..10 made of layers with same-typed, pairwise distinct configurations (so that any mis-ordering shows), plus the catalogue: (a) construct through '
         'make_parameter_pack_for from the positional configurations, read every layer\'s configuration back through get_configuration() and the get_backend() chain: must equal what was passed, in order '
-        '(independent oracle: the generated tokens themselves), storage zero-initialised; (b) construct from configurations and storage, read both back, rebuild a second field from what was read: '
+        '(independent oracle: the generated tokens themselves), storage zero-initialised, also with array storage configured longer than the extents above it need; (b) construct from configurations and storage, read both back, rebuild a second field from what was read: '
         'configurations, storage, dump bytes and the value at sampled coordinates must be identical; compared with the model (parse_layers / fld_cfg_groups, theorems C17_*). '
         'A case = (stack, tokens); non-trivial = at least two configured layers; distinct by those.')
     chk.prove('Properties_C17.v')
@@ -58,6 +58,10 @@ def run(replay=None):
             toks, ext = geom_field(r, n) if j == 0 else (sc.rand_field(r, n, max_extent=3, data_mode='nice', cfg_mode='nice', ordered=True), [4] * 5)
             coords = [small_coords(r, k) if j else rand_coord(r, k, ext, q % 5) for q in range(4)]
             cases.append((n, toks, coords))
+        if any(x[0] in ('strided', 'morton', 'hilbert') for x in stacks.parse(n)) and n.split('/')[-1].startswith('array'):
+            # storage configured LONGER than the extents need: the array's own configuration is then not derivable from the layer above it
+            toks = sc.rand_field(r, n, max_extent=3, data_mode='nice', cfg_mode='nice', ordered=True, slack=r.range(1, 9))
+            cases.append((n, toks, [small_coords(r, k) for q in range(4)]))
     if replay:
         rp = json.load(open(replay)).get('replay', {})
         if rp.get('cases'):
